@@ -667,7 +667,7 @@ pub fn tx_monitors(h: &Hist, ms: &mut MonState, b: &Obs, line: &str, res: &str, 
             for f in b.farms.iter() {
                 let gone = match a.farms.iter().find(|g| g.identifier == f.identifier) {
                     None => true,
-                    Some(g) => g.owner != f.owner || g.start_epoch != f.start_epoch || g.claimed_amount < f.claimed_amount,
+                    Some(g) => g.owner != f.owner || g.start_epoch != f.start_epoch || g.lp_denom != f.lp_denom || g.claimed_amount < f.claimed_amount,
                 };
                 if gone {
                     let r = f.preliminary_end_epoch.checked_add(1).and_then(|id| epoch_start_ns(h, id));
@@ -704,15 +704,28 @@ pub fn tx_monitors(h: &Hist, ms: &mut MonState, b: &Obs, line: &str, res: &str, 
             for f in b.farms.iter() {
                 let gone = match a.farms.iter().find(|g| g.identifier == f.identifier) {
                     None => true,
-                    Some(g) => g.owner != f.owner || g.start_epoch != f.start_epoch || g.claimed_amount < f.claimed_amount,
+                    Some(g) => g.owner != f.owner || g.start_epoch != f.start_epoch || g.lp_denom != f.lp_denom || g.claimed_amount < f.claimed_amount,
                 };
                 let owner = h.w.n(f.owner.as_str());
-                if gone && owner != tx.sender {
+                if gone {
                     *groups.entry((owner, h.w.cd(&f.farm_asset.denom))).or_default() += f.farm_asset.amount.u128().saturating_sub(f.claimed_amount.u128());
                 }
             }
             if !groups.is_empty() {
-                let missing = groups.iter().filter(|((o, d), exp)| delta(b, a, o, d) < **exp as i128).count();
+                // what the sender itself pays in this transaction (a farm creation: reward + fee), per denom: a refund to the
+                // sender shows in its balance net of that
+                let fee = h.w.app.wrap().query_wasm_smart::<mantra_dex_std::farm_manager::Config>(h.w.a("fm"), &mantra_dex_std::farm_manager::QueryMsg::Config {}).map(|c| c.create_farm_fee).ok();
+                let due = |d: &str| -> i128 {
+                    if tx.kind != "createfarm" { return 0; }
+                    let mut x = 0i128;
+                    if tx.args[3] == d { x += tx.args[4].parse::<u128>().unwrap_or(0) as i128; }
+                    if let Some(f) = fee.as_ref() { if h.w.cd(&f.denom) == d { x += f.amount.u128() as i128; } }
+                    x
+                };
+                let missing = groups.iter().filter(|((o, d), exp)| {
+                    let paid = if *o == tx.sender { due(d) } else { 0 };
+                    delta(b, a, o, d) + paid < **exp as i128
+                }).count();
                 out.push(format!("mon_close_refunds {} {} {}", groups.len(), missing, ms.fault_active as u8));
             }
         }
